@@ -91,6 +91,7 @@ type Engine struct {
 	negMemo      map[*Term][]*Term
 	ctxReach     *Term
 	snaps        map[int]*State
+	pureFns      map[*Term]bool
 	snapCount    int
 }
 
@@ -100,7 +101,7 @@ func NewEngine(P *Program) *Engine {
 		typeIDs: map[string]int{}, typeByID: map[int]types.Type{}, strLitText: map[string]string{},
 		assumption: map[string]bool{}, inlined: map[string]bool{}, usedCtr: map[string]bool{}, funcsSeen: map[string]bool{},
 		writeMemo: map[string]*writeSet{}, loopInfo: map[*ssa.Function]*loopInfo{}, globalRefs: map[string]*Term{}, maxDepth: 60,
-		closureByRef: map[*Term]*Closure{}, retMemo: map[*ssa.Function]*retOrigin{}, negMemo: map[*Term][]*Term{}, snaps: map[int]*State{}, arithChecked: map[*ssa.Function]bool{}}
+		closureByRef: map[*Term]*Closure{}, retMemo: map[*ssa.Function]*retOrigin{}, negMemo: map[*Term][]*Term{}, snaps: map[int]*State{}, pureFns: map[*Term]bool{}, arithChecked: map[*ssa.Function]bool{}}
 	tb := E.tb
 	tb.DeclSort(SRef)
 	tb.DeclSort(SUnit)
